@@ -1224,7 +1224,7 @@ with pplist (n : nat) (is_result : bool) (ts : list tk) (acc : list param) (ei :
   end.
 
 (* fuel that suffices for a source of that many tokens *)
-Definition fuel_of (ts : list tk) : nat := 2 * length ts + 4.
+Definition fuel_of (ts : list tk) : nat := 8 * length ts + 8.
 
 (* parseExpr on the whole source: flags (canBeSwitchGuard, false, false, false) as the statement parser calls it *)
 Definition parse_top (guard : bool) (ts : list tk) : RT :=
